@@ -347,7 +347,11 @@ def c17_r2(ctx: Ctx, rule):
         src = c.args[0]
         doms = [g.nodes[i] for i in dom.get(cn.id, set())]
         writes = [n for n in doms if n.stmt is not None and any(isinstance(x, ast.Call) and call_name(x) == "serialize" for e in cfgmod.header_exprs(n.stmt) for x in ast.walk(e))]
-        closes = [n for n in doms if n.stmt is not None and (any(isinstance(x, ast.Call) and call_name(x) == "close" for e in cfgmod.header_exprs(n.stmt) for x in ast.walk(e)) or n.kind == "with")]
+        def with_closed_before(n):
+            # a `with` closes its stream when the block is left: the commit must come after the block, not inside it
+            return n.kind == "with" and not any(x is c for b in n.stmt.body for x in ast.walk(b))
+
+        closes = [n for n in doms if n.stmt is not None and (any(isinstance(x, ast.Call) and call_name(x) == "close" for e in cfgmod.header_exprs(n.stmt) for x in ast.walk(e)) or with_closed_before(n))]
         ok_order = bool(writes) and bool(closes)
         res.ob("commit %s: dominated by the write (%s) and by close/with (%s)" % (norm(c)[:40], bool(writes), bool(closes)))
         if not ok_order:
@@ -622,3 +626,7 @@ def c16_r4(ctx: Ctx, rule):
             if not ok:
                 res.fail(rule.id, "content-bytes-non-utf8::%s" % norm(c), ctx.loc(q, c), "content bytes are decoded as %r" % enc, "bytes produced by serialize() do not read back")
     return res
+
+
+RULES.setdefault("C16", []).append(Rule("C16.R5", "the file a path destination names receives the complete text: the temporary file is written and closed before it is moved (shared with C17.R2)", 2, c17_r2, "F-PATH",
+                                        "serialize(destination=path) cannot move a file whose buffered tail has not been flushed"))
